@@ -192,7 +192,7 @@ EXTRA = {
     "C15": "get_attr's small-map scan only stops on a match (dot access agrees with keyed lookup). KeyNumber::cmp compares same-sign payloads directly; no float->int cast outside the reviewed, range-guarded functions (C13.CONV, shared).",
     "C20": "b64_encode is one Engine::encode call on the whole input.",
     "C13": "Every float->int cast is in a reviewed function behind two range tests. Two floats are compared with IEEE partial_cmp, NaNs placed by is_nan only where that is undecided; no comparison function looks at a float's bit pattern.",
-    "C16": "first/last/nth are slice::first/last/get (C17.DELEG, shared). `group_by` creates a group only on the key-absent edge of a lookup (never overwrites one). `unique` keeps an element exactly when BTreeSet<Value> says it is new; no second membership structure takes part.",
+    "C16": "Value::reverse answers with a value of the kind it was given (per arm; this rule found the bytes defect F7). first/last/nth are slice::first/last/get (C17.DELEG, shared). `group_by` creates a group only on the key-absent edge of a lookup (never overwrites one). `unique` keeps an element exactly when BTreeSet<Value> says it is new; no second membership structure takes part.",
     "C18": "VirtualMachine::render_to builds no Ok after an Err was seen. An Err of a nested render (include, component, block, super) always ends the instruction in a return, whatever its kind. A String-returning wrapper builds no result of its own before calling its `_to` sibling.",
 }
 
